@@ -82,7 +82,8 @@ func buildRequestS() *signature.SignRequest {
 		ls := &envLocalS{key: key, chainErr: rt.Choose("local.chain.err", 2) == 1}
 		nc := rt.Choose("certs.len", 3)
 		for i := 0; i < nc; i++ {
-			signerCertsS = append(signerCertsS, rt.Havoc[*x509.Certificate]("cert"+string(rune('0'+i))))
+			signerCertsS = append(signerCertsS, rt.Havoc[*x509.Certificate](certNameS(i)))
+			allCertsS = append(allCertsS, signerCertsS[len(signerCertsS)-1])
 		}
 		req.Signer = ls
 	}
@@ -126,11 +127,14 @@ func jwsRowOfKeySpec() int {
 
 func signJWS() {
 	req := buildRequestS()
+	signAndCheckJWS(NewEnvelope().(*base.Envelope), req, true)
+}
+
+// signAndCheckJWS: Sign(req) on the object e and everything that must hold afterwards; fresh = e was new (otherwise e
+// holds an earlier signature, and after a failure it may show that one)
+func signAndCheckJWS(e *base.Envelope, req *signature.SignRequest, fresh bool) (out []byte, err error) {
 	theReqS = req
 	st0, exp0 := req.SigningTime, req.Expiry
-	e := NewEnvelope().(*base.Envelope)
-	var out []byte
-	var err error
 	_, panicked := rt.Panics(func() { out, err = e.Sign(req) })
 	rt.Assert(!panicked, "C16.jws.nopanic")
 	if panicked {
@@ -194,6 +198,9 @@ func signJWS() {
 		rt.Assert(rt.Iff(tsCallsS == 1, wantTS), "C15.L3.jws.timestamped.iff.required")
 	}
 	// ---- C20 on a fresh object
+	if err != nil && !fresh {
+		return // what the object may show after a failed attempt on a used object is asserted by the sequence harness
+	}
 	c, verr := e.Content()
 	if err != nil {
 		_, notFound := verr.(*signature.SignatureNotFoundError)
@@ -261,4 +268,5 @@ func signJWS() {
 		}
 		rt.Assert(found == 1, "C08.jws.attribute.once")
 	}
+	return
 }
